@@ -546,9 +546,13 @@ def build(ctx, i):
     if i % 5 == 1:
         # the block under test is a PostSynthBlock (what synthesize() leaves as the working block): the fault
         # classes and the simulators' own sanity_check call apply to it like to any other block
-        d = gen_designs.make_design(rng, wide_prob=0.0, n_ops=rng.randint(2, 4), max_width=3,
-                                    allow_rom=(i % 2 == 0))
-        pyrtl.synthesize()
+        # (kept small: the Coq models of iteration and sanity_check are quadratic in the number of nets)
+        for n_ops, mw, mem in ((rng.randint(2, 4), 3, True), (3, 3, False), (2, 2, False), (1, 1, False)):
+            d = gen_designs.make_design(rng, wide_prob=0.0, n_ops=n_ops, max_width=mw,
+                                        allow_mem=mem, allow_rom=(mem and i % 2 == 0))
+            pyrtl.synthesize()
+            if len(pyrtl.working_block().logic) <= 110:
+                break
         d.block = pyrtl.working_block()
         d.inputs = sorted(d.block.wirevector_subset(pyrtl.Input), key=lambda w: w.name)
         d.outputs = sorted(d.block.wirevector_subset(pyrtl.Output), key=lambda w: w.name)
@@ -662,7 +666,7 @@ def run(ctx):
     # ---- (b): fault injection
     for i in range(ndesigns):
         for fault in FAULTS:
-            for site in range(sites_per_fault if (i % 5 != 1 or ctx.tier != 'quick') else 1):
+            for site in range(sites_per_fault if i % 5 != 1 else (1 if ctx.tier == 'quick' else 2)):
                 d = safe_build(ctx, i, 'b')
                 if d is None:
                     break
@@ -737,7 +741,7 @@ Definition order_case (nl : netlist) (idx : list Z) : list Z :=
 '''
     if gen_ok:
         imports = imports.replace(IMPORTS, IMPORTS_GEN)
-    results = ctx.coq_eval(exprs, imports, tag='c10', shard=80, jobs=12)
+    results = ctx.coq_eval(exprs, imports, tag='c10', shard=80 if ctx.tier == 'quick' else 30, jobs=12)
     # (f) the regenerated connectivity checks of sanity_check (Gen/SanityBlock.v) vs the check the real one raises
     try:
         bres = ctx.coq_eval(block_exprs, IMPORTS_BLOCK, tag='c10blk', shard=120, jobs=12)
